@@ -427,3 +427,34 @@ package pubsub
 //@        (forall i int :: 0 <= i && i < len(rpc.RPC.Control.Iwant) ==> rpc.RPC.Control.Iwant[i] != nil) &&
 //@        (forall i int :: 0 <= i && i < len(rpc.RPC.Control.Idontwant) ==> rpc.RPC.Control.Idontwant[i] != nil)
 //@   noframe
+
+// ---- C11: splitting an oversized RPC (content conservation of the fields that are never broken up) ----
+//
+// split$1 is the iterator body. passed(dyn:yield, 0) is the set of fragments handed to the
+// consumer, alltrue(dyn:yield) says the consumer never asked to stop. If it never stopped, the
+// partial-message field, the test-extension field, the extensions control message and the
+// IDONTWANT entries of the original are each carried by some fragment (they are singletons or
+// opaque lists that the splitter does not break up, so "carried" means by pointer / by slice).
+// What is NOT specified here: the size bound of the fragments, order and no-duplication of
+// published messages, subscriptions, GRAFT/PRUNE/IHAVE/IWANT contents (the protobuf size
+// function is external and the packing loops would need a model of it).
+//@ spec fn splitSrcSame(rpc *RPC) bool = rpc.RPC.Partial == old(rpc.RPC.Partial) && rpc.RPC.TestExtension == old(rpc.RPC.TestExtension) && rpc.RPC.Control == old(rpc.RPC.Control) &&
+//@      (rpc.RPC.Control != nil ==> rpc.RPC.Control.Extensions == old(rpc.RPC.Control.Extensions) && rpc.RPC.Control.Idontwant == old(rpc.RPC.Control.Idontwant))
+//@ func (*RPC).split$1
+//@   property C11
+//@   requires rpc: rpc != nil
+//@   noframe
+//@   loop 1 invariant source-untouched: splitSrcSame(rpc) && (nextRPC.RPC.Control == nil || fresh(nextRPC.RPC.Control))
+//@   loop 2 invariant source-untouched: splitSrcSame(rpc) && (nextRPC.RPC.Control == nil || fresh(nextRPC.RPC.Control))
+//@   loop 3 invariant source-untouched: splitSrcSame(rpc) && (nextRPC.RPC.Control == nil || fresh(nextRPC.RPC.Control))
+//@   loop 4 invariant source-untouched: splitSrcSame(rpc) && (nextRPC.RPC.Control == nil || fresh(nextRPC.RPC.Control))
+//@   loop 5 invariant source-untouched: splitSrcSame(rpc) && (nextRPC.RPC.Control == nil || fresh(nextRPC.RPC.Control))
+//@   loop 6 invariant source-untouched: splitSrcSame(rpc) && (nextRPC.RPC.Control == nil || fresh(nextRPC.RPC.Control))
+//@   loop 7 invariant source-untouched: splitSrcSame(rpc) && (nextRPC.RPC.Control == nil || fresh(nextRPC.RPC.Control))
+//@   loop 8 invariant source-untouched: splitSrcSame(rpc) && (nextRPC.RPC.Control == nil || fresh(nextRPC.RPC.Control))
+//@   ensures partial-carried: alltrue(dyn:yield) && old(rpc.RPC.Partial) != nil ==> (exists x RPC :: passed(dyn:yield, 0)[x] && x.RPC.Partial == old(rpc.RPC.Partial))
+//@   ensures test-extension-carried: alltrue(dyn:yield) && old(rpc.RPC.TestExtension) != nil ==> (exists x RPC :: passed(dyn:yield, 0)[x] && x.RPC.TestExtension == old(rpc.RPC.TestExtension))
+//@   ensures extensions-carried: alltrue(dyn:yield) && old(rpc.RPC.Control) != nil && old(rpc.RPC.Control.Extensions) != nil ==>
+//@        (exists x RPC :: passed(dyn:yield, 0)[x] && x.RPC.Control != nil && x.RPC.Control.Extensions == old(rpc.RPC.Control.Extensions))
+//@   ensures idontwant-carried: alltrue(dyn:yield) && old(rpc.RPC.Control) != nil && old(len(rpc.RPC.Control.Idontwant)) > 0 ==>
+//@        (exists x RPC :: passed(dyn:yield, 0)[x] && x.RPC.Control != nil && x.RPC.Control.Idontwant == old(rpc.RPC.Control.Idontwant))
